@@ -16,8 +16,11 @@ RULE = ("Random subsets (1-8) and values of the documented appearance options on
         "sizes, grid colour/style/width/visibility, perfect-score line, aspect, figure size, subplot parameters, annotations) "
         "and each option present must show its documented effect whatever other options accompany it; the file must exist "
         "with the magic bytes of its extension, PNG dpi metadata equal to -dpi and pixel size = inches x dpi when explicit "
-        "margins disable the tight bounding box. Non-trivial: >=3 appearance options in one run; distinct by hash of (kind, "
-        "options).")
+        "margins disable the tight bounding box. (styles) -lc/-ls/-lw/-ma/-ms (with cycling, optionally -leg) on 17 kinds of plot "
+        "that draw one labelled series per input (obsfcst, qq, scatter, error, taylor, performance, reliability, freq, roc, "
+        "timeseries, spreadskill, marginal and standard plots over time/location/threshold/leadtime): the k-th input's series "
+        "carries the k-th value. Non-trivial: >=3 appearance options in one run, or a style list with >=2 different values; "
+        "distinct by hash of (kind, options).")
 ASSUMPTIONS = [
     "titles/labels are generated without '_' (its replacement by a space is documented for -leg only)",
     "option pairs that contradict each other by design are not combined: -nogrid with -gc/-gs/-gw, -nomargin with -left/-right/-top/-bottom, "
@@ -366,7 +369,105 @@ def check_figure(case, ctx):
                 ctx.fail("C17/file/pixel-size", sub, "PNG is %dx%d pixels, figure %r in x %r dpi" % (w, h, dump["size"], want_dpi))
 
 
+# ---- line-style options on every kind of plot that draws one labelled series per input ---------------------
+STYLE_KINDS = {
+    # name: (arguments, the series are drawn with a line (so -ls applies))
+    "obsfcst": (["-m", "obsfcst"], True),
+    "obsfcst-time": (["-m", "obsfcst", "-x", "time"], True),
+    "qq": (["-m", "qq"], True),
+    "scatter": (["-m", "scatter"], False),
+    "error": (["-m", "error"], False),
+    "taylor": (["-m", "taylor"], False),
+    "performance": (["-m", "performance", "-r", "1"], False),
+    "reliability": (["-m", "reliability", "-r", "1"], True),
+    "freq": (["-m", "freq", "-r", "0,1,2"], True),
+    "roc": (["-m", "roc", "-r", "1"], True),
+    "timeseries": (["-m", "timeseries"], True),
+    "spreadskill": (["-m", "spreadskill"], True),
+    "marginal": (["-m", "marginal", "-r", "0,1,2"], True),
+    "mae-time": (["-m", "mae", "-x", "time"], True),
+    "corr-location": (["-m", "corr", "-x", "location"], False),
+    "ets-threshold": (["-m", "ets", "-x", "threshold", "-r", "0,1,2"], True),
+    "rmse-leadtime": (["-m", "rmse", "-x", "leadtime"], True),
+}
+
+
+def styles_strategy(tier):
+    @st.composite
+    def s(draw):
+        kind = draw(st.sampled_from(sorted(STYLE_KINDS)))
+        names = draw(st.lists(st.sampled_from(["lc", "ls", "lw", "ma", "ms"]), min_size=1, max_size=5, unique=True))
+        opts = {}
+        for nm in names:
+            opts[nm] = draw(OPTIONS[nm][1])
+        if draw(st.sampled_from([False, False, True])):
+            opts["leg"] = draw(OPTIONS["leg"][1])
+        return {"style_kind": kind, "shape": draw(st.sampled_from(["full2", "full3", "full2-nomissing"])), "opts": opts}
+    return s()
+
+
+def check_styles(case, ctx):
+    from .. import drive, figdump, mat
+    if "style_kind" not in case:
+        return check_figure(case, ctx)
+    kind, opts = case["style_kind"], dict(case["opts"])
+    base, has_line = STYLE_KINDS[kind]
+    key = (case["shape"],)
+    if key not in _files or not os.path.exists(_files[key][0]):
+        d = os.path.join(ctx.scratch, "files_" + case["shape"])
+        os.makedirs(d, exist_ok=True)
+        _files[key] = mat.write_files(fixed.get(case["shape"]), d, "text")[0]
+    paths = _files[key]
+    n_in = len(paths)
+    if "leg" in opts:
+        opts["leg"] = list(opts["leg"])[:n_in]
+    args = list(paths) + base + render(opts)
+    r = drive.run(args)
+    _runs[0] += 1
+    ctx.evals += 1
+    short = [os.path.basename(a) if os.sep in str(a) else a for a in args]
+    ctx.label("style-kind=" + kind)
+    if r.exc is not None:
+        ctx.fail("C17/exception/%s" % r.exc_key, case, "argv: %s\n%s" % (" ".join(map(str, short)), r.tb[-600:]))
+        drive.close_figures()
+        return
+    if r.exit not in (None, 0):
+        ctx.fail("C17/exit", case, "argv: %s: %s" % (" ".join(map(str, short)), " | ".join(r.error_lines())))
+        return
+    dump = figdump.dump_current()
+    if _runs[0] % 20 == 0:
+        drive.close_figures()
+    axes = [a for a in dump["axes"] if not a["is_colorbar"]]
+    names = [x.replace("_", " ") for x in opts["leg"]] if "leg" in opts else [os.path.basename(p) for p in paths]
+    if any(len(v) >= 2 and len(set(map(str, v))) >= 2 for k, v in opts.items() if k != "leg"):
+        ctx.nt((kind, case["shape"], opts))
+        ctx.label("nontrivial")
+        ctx.sample({"argv": short})
+    attr = {"lc": "color", "ls": "ls", "lw": "lw", "ma": "marker", "ms": "ms"}
+    for ai, a in enumerate(axes[:1]):
+        lines = [ln for ln in a["lines"] if ln["label"] in names]
+        if [ln["label"] for ln in lines] != names:
+            ctx.fail("C17/styles/series", case, "argv: %s: labelled series %r, expected one per input %r" % (" ".join(map(str, short)), [ln["label"] for ln in lines], names))
+            return
+        for o, v in opts.items():
+            if o == "leg" or (o == "ls" and not has_line):
+                continue
+            for f, ln in enumerate(lines):
+                want = v[f % len(v)]
+                got = ln[attr[o]]
+                if o == "lc":
+                    ok = all(abs(x - y) < 0.01 for x, y in zip(got, COLORS[want]))
+                elif o in ("ls", "ma"):
+                    ok = got == want
+                else:
+                    ok = cmpx.close(got, want)
+                if not ok:
+                    ctx.fail("C17/applied/-" + o, case, "argv: %s: series %d (%s) has %s=%r, expected %r (cycling %r)" % (" ".join(map(str, short)), f, ln["label"], attr[o], got, want, v))
+                    break
+
+
 def campaigns(tier):
     return [
         Hyp("figures", strategy, check_figure, quick=720, thorough=40000, budget_quick=75, budget_thorough=2400),
+        Hyp("styles", styles_strategy, check_styles, quick=480, thorough=12000, budget_quick=40, budget_thorough=1200),
     ]
